@@ -287,3 +287,12 @@ func getenv(k, def string) string {
 }
 
 func removeAll(dir string) { _ = os.RemoveAll(dir) }
+
+// failNoShrink reports a violation that must not be shrunk (a hang: every further attempt would cost
+// the whole deadline again): the replay is written and the process exits.
+func failNoShrink(doc replayDoc, v *drv.Violation) {
+	doc.Violation = v.Msg
+	p := writeReplay(doc)
+	fmt.Printf("VIOLATION-FOUND property=%s replay=%s\n%s\n", doc.Property, p, v.Msg)
+	os.Exit(1)
+}
